@@ -8,6 +8,7 @@
   `opts.schemas` is the type table (initial entries and `ForOptions.TypeSchemas`), whose schemas live in `st`.
 -/
 import JSV.Proofs.InfEqns
+import JSV.Proofs.InfNamed
 import JSV.Proofs.InfEmbCons
 import JSV.Proofs.InfEmbDom
 import JSV.Proofs.InfEmbWalk
@@ -321,6 +322,67 @@ theorem typeTable_clone_fresh (opts : IOpts) (fuel : Nat) (nm : String) (u : GoT
       rw [hnone] at hcn
       cases hcn
 
+/-! ## declared (named) types without a type-table entry
+
+  `EncJson.erase T`: `T` with every declared type replaced by its underlying type; `EncJson.NamedOk opts strs [] T`
+  (decidable): every declared type of `T` that is not one of the marshaler types `strs` has no entry in the type table,
+  an underlying type that is a basic kind, slice, array, map or struct, and no name occurs twice along a root-to-leaf
+  path; the marshaler types `strs` have the entry `{"type":"string"}` (`EncJson.StrEntries`) and are written
+  `.named n (.basic "String")`.  Helper lemmas: JSV/Proofs/InfNamed.lean. -/
+
+/-- a declared type that is not in the type table and not being expanded is treated like its underlying type: the
+    only effect is that its name is entered into `seen` (for a pointer to it `null` is added as for the underlying
+    type) -/
+theorem named_pushes_seen (opts : IOpts) (fuel : Nat) (nm : String) (u : GoType) (seen : List String) (st : Store)
+    (hs : Json.lookup nm opts.schemas = none) (hseen : seen.contains nm = false) (hsh : namedShape u = true) :
+    inferFuel opts (fuel + 1) (.named nm u) seen st = inferFuel opts (fuel + 1) u (nm :: seen) st ∧
+    inferFuel opts (fuel + 1) (.ptr (.named nm u)) seen st = inferFuel opts (fuel + 1) (.ptr u) (nm :: seen) st :=
+  ⟨inferStep_named_transparent (t0 := .named nm u) (an := false) rfl hseen hs hsh,
+   inferStep_named_transparent (t0 := .ptr (.named nm u)) (an := true) rfl hseen hs hsh⟩
+
+/-- **declared types are transparent**: on a type whose declared types are transparent (`NamedOk`) `ForType` is
+    `ForType` on the erased type — the same outcome, the same schema, the same store; for a marshaler type of the table
+    (entry `{"type":"string"}`) the clone of the entry is the schema of the kind `string` -/
+theorem forType_named_transparent (opts : IOpts) (strs : List String) (fuel : Nat) (T : GoType) (st : Store)
+    (hst : StrEntries opts.schemas strs st) (hok : NamedOk opts strs [] T = true) :
+    forType opts fuel T st = forType opts fuel (erase T) st :=
+  forType_erase opts strs fuel T st hst hok
+
+/-- the schema of a declared struct type `type N struct {…}` without a type-table entry (whatever the field types) -/
+theorem struct_schema_named (opts : IOpts) (fuel : Nat) (nm : String) (fields : List (String × String × GoType))
+    (st : Store) (id : NodeId) (st' : Store) (hi : opts.ignore = false) (hs : Json.lookup nm opts.schemas = none)
+    (h : forType opts (fuel + 1) (.named nm (.struct fields)) st = .ok (some id, st')) :
+    ∃ n, st'.get? id = some n ∧ n.type = "object" ∧
+      n.required.getD [] = alwaysNames fields ∧
+      (∀ k, k ∈ (n.properties.getD []).map (·.1) ↔ k ∈ jsonNames fields) ∧
+      (nodup (jsonNames fields) = true → n.propertyOrder.getD [] = jsonNames fields) := by
+  change inferFuel opts (fuel + 1) (.named nm (.struct fields)) [] st = _ at h
+  rw [(named_pushes_seen opts fuel nm (.struct fields) [] st hs rfl rfl).1] at h
+  exact inferStep_struct_schema hi h
+
+/-- … a field's JSON name is required iff its tag has neither omitempty nor omitzero (distinct JSON names) -/
+theorem required_iff_not_omit_named (opts : IOpts) (fuel : Nat) (nm : String) (fields : List (String × String × GoType))
+    (st : Store) (id : NodeId) (st' : Store) (hi : opts.ignore = false) (hs : Json.lookup nm opts.schemas = none)
+    (hd : nodup (jsonNames fields) = true)
+    (h : forType opts (fuel + 1) (.named nm (.struct fields)) st = .ok (some id, st'))
+    (f : String × String × GoType) (hf : f ∈ fields) (ho : (fieldJSONInfo f.1 f.2.1).omitted = false) :
+    ∃ n, st'.get? id = some n ∧
+      ((fieldJSONInfo f.1 f.2.1).name ∈ n.required.getD [] ↔
+        ((fieldJSONInfo f.1 f.2.1).omitempty = false ∧ (fieldJSONInfo f.1 f.2.1).omitzero = false)) := by
+  obtain ⟨n, hn, _, hr, _⟩ := struct_schema_named opts fuel nm fields st id st' hi hs h
+  exact ⟨n, hn, by rw [hr]; exact mem_alwaysNames_iff hd hf ho⟩
+
+/-- … `propertyOrder` is the list of JSON names of the non-omitted fields in declaration order, and the keys of
+    `properties` are the same names (distinct JSON names) -/
+theorem propertyOrder_is_field_order_named (opts : IOpts) (fuel : Nat) (nm : String)
+    (fields : List (String × String × GoType)) (st : Store) (id : NodeId) (st' : Store) (hi : opts.ignore = false)
+    (hs : Json.lookup nm opts.schemas = none) (hd : nodup (jsonNames fields) = true)
+    (h : forType opts (fuel + 1) (.named nm (.struct fields)) st = .ok (some id, st')) :
+    ∃ n, st'.get? id = some n ∧ n.propertyOrder.getD [] = jsonNames fields ∧
+      ∀ k, k ∈ (n.properties.getD []).map (·.1) ↔ k ∈ jsonNames fields := by
+  obtain ⟨n, hn, _, _, hp, hpo⟩ := struct_schema_named opts fuel nm fields st id st' hi hs h
+  exact ⟨n, hn, hpo hd, hp⟩
+
 /-! ## the tag parser -/
 
 /-- no `json` key in the tag: the Go field name, nothing omitted -/
@@ -397,6 +459,23 @@ example : (match forType { schemas := [("time.Time", 0)] } 2
 example : forType {} 5 (.named "L" (.slice (.ref "L"))) #[] = .err :=
   (recursive_slice_errors {} 3 "L" #[] rfl).1
 
+
+/-- `type Level int8; type IDs []Level`: the schema of `[]int8` (`forType_named_transparent` applied) -/
+example : forType {} 3 (.named "IDs" (.slice (.named "Level" (.basic "Int8")))) #[] =
+    forType {} 3 (.slice (.basic "Int8")) #[] :=
+  forType_named_transparent {} [] 3 _ #[] (fun _ h => nomatch h) (by decide)
+
+/-- … evaluated: two nodes, `null` from the slice rule, integer items -/
+example : (match forType {} 3 (.named "IDs" (.slice (.named "Level" (.basic "Int8")))) #[] with
+    | .ok (some id, st') => (id, st'.size, (st'.get? id).map (·.types), (st'.get? 0).map (·.type))
+    | _ => (0, 0, none, none)) = (1, 2, some (some ["null", "array"]), some "integer") := by decide
+
+/-- the same declared type at two sibling positions is fine (`seen` is path-local) … -/
+example : NamedOk {} [] [] (.struct [("A", "", .named "P" (.basic "Int")), ("B", "", .slice (.named "P" (.basic "Int")))])
+    = true := by decide
+
+/-- … twice along one path it is the cycle check's business -/
+example : NamedOk {} [] [] (.named "P" (.slice (.named "P" (.basic "Int")))) = false := by decide
 
 /-! ## embedded struct fields (`forTypeE`, JSV/Model/InferEmb.lean; encoding/json side: JSV/Spec/EncJsonEmb.lean)
 
